@@ -2,8 +2,10 @@ package l3e2e
 
 import (
 	"fmt"
+	datatransfer "github.com/filecoin-project/go-data-transfer/v2"
 	"os"
 	"testing"
+	"time"
 
 	"verif/mc"
 )
@@ -24,5 +26,31 @@ func TestDebug(t *testing.T) {
 				}
 			}
 		}
+	}
+}
+
+func TestDebugRestartEarly(t *testing.T) {
+	if os.Getenv("VERIF_DEBUG") == "" {
+		t.Skip()
+	}
+	sc := Scenario{Pull: true, DAG: 1, Stores: os.Getenv("VERIF_STORES"), Profile: "force-pause"}
+	debugDump = func(r *runCtx) {
+		for _, n := range []*Node{r.ini, r.rsp} {
+			n.mu.Lock()
+			for _, e := range n.Events {
+				fmt.Printf("   %s ev %d %s\n", n.Name, e.Seq, datatransfer.Events[e.Code])
+			}
+			n.mu.Unlock()
+		}
+	}
+	if os.Getenv("VERIF_IDLE") != "" {
+		idleDur = 20 * time.Second
+	}
+	for k := 1; k < 2; k++ {
+		x := mc.NewCellForDebug(t)
+		c := &mc.Chooser{Prefix: []int{k}}
+		ex := explore(x, sc, c, "dbg", true)
+		fmt.Println("choice", k, "labels", c.Trace[0].Label, c.Trace[0].N, "=>", ex.Premise, ex.Outcome, "violations", len(x.Violations))
+		fmt.Println(x.DebugLog)
 	}
 }
